@@ -25,6 +25,13 @@ func Harness_C18_leave_effect() {
 	v.Assume(vCheckJ("", ob, addrP, addrA, E, false))
 
 	os.VerifLeaveLocal()
+	// the compaction task may run between the local leave and the
+	// notifications (a node that just lost all its upstreams has many deleted
+	// keys): the departure must survive it
+	if v.Choose("compaction-after-leave", 2) == 1 {
+		os.VerifCompactLocal(0)
+		v.Cover("compacted-after-leave")
+	}
 	ob.gs.VerifApplyDelta(os.VerifLocalDelta())
 
 	for i := 0; i < E; i++ {
